@@ -19,6 +19,15 @@ struct Sp<T> {
     k: Spanned<T>,
 }
 
+/// a newtype struct is transparent: same values, same error locations as the type it wraps
+#[derive(serde::Deserialize)]
+struct NewT<T>(T);
+impl<T: ToJ> ToJ for NewT<T> {
+    fn to_j(&self) -> J {
+        self.0.to_j()
+    }
+}
+
 #[derive(serde::Deserialize, Debug, Clone, Copy)]
 enum Kind {
     #[serde(rename = "a")]
@@ -130,7 +139,18 @@ fn typed<T: DeserializeOwned + ToJ>(ty: &str, text: &str, out: &mut Vec<J>) {
         Ok(None) => json!({"res": "none", "val": proj::dummy(), "span": [], "rendered": []}),
         Err(_) => json!({"res": "panic", "val": proj::dummy(), "span": [], "rendered": []}),
     };
-    out.push(json!({"ty": ty, "plain": pj, "spanned": sj, "from_docmut": dj}));
+    // the same target through `str::parse::<toml_edit::de::Deserializer>()`: the source text is at hand, so errors
+    // are located exactly like on the from_str route
+    let fs = catch_unwind(AssertUnwindSafe(|| {
+        text.parse::<toml_edit::de::Deserializer>().map(|d| <Plain<T> as serde::Deserialize>::deserialize(d))
+    }));
+    let fj = match &fs {
+        Ok(Ok(Ok(v))) => json!({"res": "ok", "val": v.k.to_j(), "span": []}),
+        Ok(Ok(Err(e))) => json!({"res": "err", "val": proj::dummy(), "span": e.span().map(|s| vec![s.start, s.end]).unwrap_or_default()}),
+        Ok(Err(e)) => json!({"res": "err", "val": proj::dummy(), "span": e.span().map(|s| vec![s.start, s.end]).unwrap_or_default()}),
+        Err(_) => json!({"res": "panic", "val": proj::dummy(), "span": []}),
+    };
+    out.push(json!({"ty": ty, "plain": pj, "spanned": sj, "from_docmut": dj, "de_fromstr": fj}));
 }
 
 /// --in texts.ndjson
@@ -170,6 +190,9 @@ pub fn span_events(args: &Args) {
             typed::<BTreeMap<String, toml::Value>>("table", &text, &mut ty);
             typed::<BTreeMap<Spanned<String>, Spanned<toml::Value>>>("table_spanned", &text, &mut ty);
             typed::<toml::Value>("value", &text, &mut ty);
+            typed::<Vec<i64>>("int_array", &text, &mut ty);
+            typed::<NewT<Vec<i64>>>("newtype_int_array", &text, &mut ty);
+            typed::<NewT<i64>>("newtype_i64", &text, &mut ty);
             typed::<Kind>("enum", &text, &mut ty);
             typed::<Vec<Kind>>("enum_array", &text, &mut ty);
             typed::<Vec<(Kind, i64)>>("enum_tuple_array", &text, &mut ty);
